@@ -489,7 +489,7 @@ func (cc *cacheController) flush() {
 	}
 	for k, sem := range cc.l1LockSems {
 		sem.Unlock()
-		delete(cc.l1RLockSems, k)
+		delete(cc.l1LockSems, k)
 	}
 }
 
